@@ -94,9 +94,12 @@ def gen_signal(rng, fs, f_lo, f_hi, n_sec, kind=None):
         x = np.round(2 * base + 0.7 * colored(rng, n))
     else:  # oscnoise
         x = base + rng.uniform(0.1, 1.5) * colored(rng, n)
-    if rng.random() < 0.4:
+    r = rng.random()
+    if r < 0.4:
         x = x * (2.0 ** float(rng.integers(-10, 11)) if rng.random() < 0.5
                  else 10.0 ** float(rng.integers(-3, 4)))
+    elif r < 0.46:
+        x = x * 2.0 ** float(rng.choice([-1, 1]) * rng.integers(28, 50))      # very small / large units (e.g. tesla)
     return np.ascontiguousarray(x, dtype=float), kind
 
 
